@@ -67,6 +67,8 @@ def check_scenario(sc, res: Result, work: Work, rng, max_all=400, extra_random=3
     if obs_problem:
         res.violation(f"scenario {name} ({sc.describe}): {obs_problem}", dict(case0, kind="observation"))
         return
+    if unobserved(labels, started):
+        res.coverage.setdefault("unobserved_in_no_yield_run", []).append({"plan": name, "missing": unobserved(labels, started)})
     ahb.use_provider(sc.evaluators)
     if sorted(GT._base(l) for l in started) != sorted(GT._base(l) for l in labels):
         # the code starts other awaitables than the orchestration model derives (e.g. after a refactoring of the gathers): that alone is no
@@ -127,7 +129,9 @@ def _strip(label):
 
 def observation_mismatch(model_labels, started_labels):
     """what the awaitables OBSERVED (text handed to an FC evaluator, data seen by an evaluator) - independent of how the code groups its gathers:
-    for every (kind, key) the set of observed tags must be the set the model derives"""
+    for every (kind, key) every observed tag must be one the model derives for that key (its own data element's text / its own evaluation's data).
+    An expected observation that does not occur (the code did not start that awaitable at all: short cut, de-duplication, nothing to check for an
+    element without input) is NOT a violation by itself - whether the consumer still got ITS value is decided on the results."""
     exp, got = {}, {}
     for l in model_labels:
         k, t = _strip(l)
@@ -136,10 +140,22 @@ def observation_mismatch(model_labels, started_labels):
         k, t = _strip(l)
         got.setdefault(k, set()).add(t)
     for k in sorted(set(exp) & set(got)):
-        if exp[k] != got[k]:
+        if got[k] - exp[k]:
             return (f"the {k[0]} awaitable(s) for key {k[1]} observed {sorted(got[k])} (text handed to the evaluator / data of the evaluation), "
                     f"each evaluation / data element having its own gives {sorted(exp[k])}")
     return None
+
+
+def unobserved(model_labels, started_labels):
+    """expected observations that did not occur (reported in the evidence, never a violation)"""
+    exp, got = {}, {}
+    for l in model_labels:
+        k, t = _strip(l)
+        exp.setdefault(k, set()).add(t)
+    for l in started_labels:
+        k, t = _strip(l)
+        got.setdefault(k, set()).add(t)
+    return {f"{k[0]}:{k[1]}": sorted(exp[k] - got.get(k, set())) for k in sorted(exp) if exp[k] - got.get(k, set())}
 
 
 def free_exploration(sc, res, rng, kind, ref, labels, case0, n):
